@@ -12,7 +12,7 @@ from . import core
 ALLOWED_EXTRA = ("itertools", "importlib")
 _ADDR = re.compile(r" at 0x[0-9a-fA-F]+")
 # qualified-name prefixes and addresses inside default reprs are metadata (C01 excludes __qualname__)
-_QUAL = re.compile(r"(?:\w+\.)*<locals>\.|0x[0-9a-fA-F]+")
+_QUAL = re.compile(r"(?:\w+\.<locals>\.)+|0x[0-9a-fA-F]+")
 _META = {
     "__module__",
     "__qualname__",
